@@ -144,6 +144,17 @@ CLAIMED = {
         "technique": "Lean 4 proof of a trace monitor + exact allocator-vs-owner comparison after every kind of open",
         "design_ref": "DESIGN.md §6 C11",
     },
+    "C12": {
+        "text": "Lean theorems: under the explicit hypothesis that XXH3-128 is injective, two files in which a slot with the same checksum "
+                "verifies have the same covered slot bytes, and two files that decode the same root page under the same root checksum decode to "
+                "the same tree (induction over the checksum chain) - so a certificate can only be given for exactly the contents of one commit "
+                "point; and the slot served by the recovery function is valid with a fully verifying tree. On the implementation every header "
+                "byte and sampled bytes, bits, byte runs and page swaps of closed images are altered; the real open + check_integrity verdict "
+                "is accepted only if Ok(_) comes with the contents of a recorded commit point and a second check after a repair is clean.",
+        "note": NOTE + "; hash idealisation as explicit hypothesis; panics on altered files (observation O1) are counted as 'not certified'; the classification of each byte as covered or slack is not itself proved (covered_or_harmless of DESIGN remains open)",
+        "technique": "Lean 4 proof (Merkle binding under hash injectivity) + corruption sweep against recorded commit points",
+        "design_ref": "DESIGN.md §6 C12",
+    },
     "C13": {
         "text": "Lean theorems: accounting and pin safety hold across compaction's commits, ids never go backwards. On the implementation: "
                 "compact() is refused exactly when readers or savepoints exist, leaves every table's contents unchanged, never makes the file "
